@@ -394,6 +394,9 @@ fn mt_run_one(cfg: &Value, out: &mut impl Write) -> usize {
     let mut last: Option<usize> = None;
     let mut steps = 1;
     let budget = 200_000;
+    // set when the run did not come to its natural end (deadlock / budget): the
+    // remaining threads are parked for good and must not be joined
+    let mut stuck = false;
     loop {
         let v = ctl.settle(1);
         if v.is_empty() {
@@ -421,6 +424,7 @@ fn mt_run_one(cfg: &Value, out: &mut impl Write) -> usize {
             writeln!(out, "{}", json!({"t": "-", "pt": "deadlock", "g": "go", "evs": [], "exited": false, "b": 0,
                 "have": v.iter().map(|t| json!({"t": t.name, "pt": t.point.kind()})).collect::<Vec<_>>()})).unwrap();
             steps += 1;
+            stuck = true;
             break;
         }
         let same: Vec<usize> = cands.iter().enumerate().filter(|(_, c)| Some(v[c.0].tid) == last).map(|(i, _)| i).collect();
@@ -470,8 +474,14 @@ fn mt_run_one(cfg: &Value, out: &mut impl Write) -> usize {
         steps += 1;
         if steps > budget {
             writeln!(out, "{}", json!({"t": "-", "pt": "budget", "g": "go", "evs": [], "exited": false, "b": 0})).unwrap();
+            stuck = true;
             break;
         }
+    }
+    if stuck {
+        verif::remove_controller();
+        let _ = verif::trace_take();
+        return steps;
     }
     let _ = main.join();
     if let Some(h) = canc {
